@@ -494,6 +494,7 @@ impl CoreInner {
 		let min_wal_to_keep = entry.wal_number + 1;
 
 		tokio::spawn(async move {
+			verif_yield!("flush.wal_cleanup_start");
 			match cleanup_old_segments(&wal_dir, min_wal_to_keep) {
 				Ok(count) if count > 0 => {
 					log::info!(
